@@ -677,7 +677,12 @@ impl LanguageServer for Backend {
     }
 
     async fn did_change_configuration(&self, params: DidChangeConfigurationParams) {
-        self.update_config_from_obj(params.settings).await;
+        if params.settings.is_null() {
+            // Clients that use the pull model send no settings with the notification.
+            self.pull_config().await;
+        } else {
+            self.update_config_from_obj(params.settings).await;
+        }
 
         let urls: Vec<Url> = {
             let mut doc_lock = self.doc_state.lock().await;
